@@ -967,9 +967,9 @@ pub fn main() {
         }
         c.nontrivial(nontrivial);
         c.sample_with(|| format!("{:?}\n  {}", layout.nodes, descr.join("\n  ")));
-        if let Some((class, msg)) = known_mismatch {
-            c.fail_sig(class, msg);
-        }
+        // known deviation classes are pinned (and reported) through the candidate-forms sub-check; here they are only
+        // counted (label `query-in-known-deviation-class`) so that the search continues behind them
+        let _ = known_mismatch;
     });
 
     // Every form of a single candidate: what counts as a repository must agree.
